@@ -159,7 +159,8 @@ def run_gosym(pkg, harness, opts, bounds, outp, known_ids, extra=None, timeout=N
     cmd = [GOSYM, "-dir", REPO, "-overlay", HARNESS_DIR, "-pkg", pkg, "-harness", harness, "-out", outp,
            "-enc", opts.get("enc", "bv"), "-solver", opts.get("solver", "z3-new"),
            "-unwind", str(opts.get("unwind", 64)), "-workers", str(opts.get("workers", 16)),
-           "-timeout", str(opts.get("timeout_ms", 20000)), "-maxpaths", str(opts.get("maxpaths", 2000000))]
+           "-timeout", str(opts.get("timeout_ms", 20000)), "-maxpaths", str(opts.get("maxpaths", 2000000)),
+           "-walltime", str(opts.get("walltime", 3000))]
     if opts.get("panicok"):
         cmd.append("-panicok")
     if opts.get("revmap"):
@@ -179,7 +180,7 @@ def run_gosym(pkg, harness, opts, bounds, outp, known_ids, extra=None, timeout=N
     if extra:
         cmd += extra
     try:
-        r = subprocess.run(cmd, env=goenv(), capture_output=True, text=True, timeout=timeout or opts.get("wall_timeout", 3000))
+        r = subprocess.run(cmd, env=goenv(), capture_output=True, text=True, timeout=timeout or max(opts.get("wall_timeout", 3000), opts.get("walltime", 3000) + 300))
     except subprocess.TimeoutExpired:
         return None, "gosym wall-clock timeout"
     if r.returncode != 0 or not os.path.exists(outp):
